@@ -358,7 +358,9 @@ func c07(c *Ctx) {
 		// the replica's acknowledgement is only taken into account after its state has been validated
 		for _, g := range []struct{ n, fld, id string }{{"committed", ".CommittedAlh)", "ReplicaState.CommittedTxID"}, {"precommitted", ".PrecommittedAlh)", "ReplicaState.PrecommittedTxID"}} {
 			g := g
-			alhEq := whenCond(true, func(a string) bool { return strings.Contains(a, " == ") && strings.Contains(a, ").Alh[") && strings.Contains(a, g.fld) })
+			alhEq := whenCond(true, func(a string) bool {
+				return strings.Contains(a, " == ") && strings.Contains(a, ").Alh[") && strings.Contains(a, g.fld)
+			})
 			none := whenCond(false, func(a string) bool { return strings.HasPrefix(a, "(const:0 < ") && strings.HasSuffix(a, g.id+")") })
 			q := &pathQ{fn: f, fromEntry: true, to: upd, barrier: anyEdge(alhEq, none)}
 			if w := q.bypass(); w != nil {
@@ -510,7 +512,6 @@ func collectConstStrings(v ssa.Value, out map[string]bool) {
 		}
 	}
 }
-
 
 // c07PrecommitBufferIndex: the precommit buffer holds the transactions after the commit frontier; readAhead(n) returns
 // transaction committedTxID+n+1. Call sites that fetch a specific transaction T therefore pass T-committedTxID-1.
